@@ -693,6 +693,10 @@ func (s *Service) serve(nc Conn) error {
 		go s.startWorker()
 	}
 
+	// Resolve the default ownership before the service counts as started, as
+	// ResetAll may be called from other goroutines from then on.
+	s.setDefaultOwnership()
+
 	atomic.StoreInt32(&s.state, stateStarted)
 
 	err = s.subscribe(nc, inCh)
